@@ -10,6 +10,7 @@ import (
 	"regexp"
 	"strconv"
 	"strings"
+	"time"
 
 	"github.com/gosuri/uilive"
 
@@ -112,6 +113,11 @@ func parseCell(s string, quoted bool) (octosql.Value, error) {
 	if n, err := strconv.ParseInt(s, 10, 64); err == nil {
 		return octosql.NewInt(n), nil
 	}
+	if len(s) >= 20 && s[4] == '-' && s[10] == 'T' {
+		if ts, err := time.Parse(time.RFC3339, s); err == nil {
+			return octosql.NewTime(ts.UTC()), nil // every format prints a time as RFC 3339, to the second
+		}
+	}
 	if quoted {
 		return octosql.Value{}, fmt.Errorf("cell %q is neither <null>, an integer nor a quoted string", s)
 	}
@@ -153,7 +159,7 @@ func DecodePrinted(mode string, cols []string, text string) ([]PrintedRow, error
 					}
 					vals[i] = octosql.NewInt(n)
 				case string:
-					vals[i] = octosql.NewString(x)
+					vals[i], _ = parseCell(x, false)
 				default:
 					return nil, fmt.Errorf("json line %q: unexpected value %v", line, v)
 				}
